@@ -152,6 +152,8 @@ def through_processors(b, x):
 
 
 def execute(ctx, case):
+  if case['kind'] == 'long-lived':
+    return execute_long_lived(ctx, case)
   b = env.bootstrap()
   if case['kind'] == 'invalid':
     raw = case['raw']
@@ -251,7 +253,60 @@ def execute(ctx, case):
   ctx.note(case, nontrivial=(len(tags) >= 2 and reserved) or (escapes and om_agree > 0), classes=classes)
 
 
+def execute_long_lived(ctx, case):
+  """One long-lived write processor and relay processor (as in a daemon that has been up for a while): a flood of
+  distinct rule-violating names, some valid ones, a minute or two of (virtual) time, then the same names again in
+  several orders.  Every rejected name is stored and relayed exactly as received, every valid one in its normal form."""
+  b = env.bootstrap()
+  env.reset(CACHE_WRITE_STRATEGY='sorted', TAG_RELAY_NORMALIZED=True)
+  clock = [1600000000.0]
+
+  class T(object):
+    @staticmethod
+    def time():
+      return clock[0]
+  saved = b.cache.time
+  b.cache.time = T
+  try:
+    proc = env.need(b.cache, 'CacheFeedingProcessor')()
+    mgr = FakeManager()
+    b.state.client_manager = mgr
+    rp = env.need(b.client, 'RelayProcessor')()
+    n = case['n']
+    bad = ['flood%d;=v%d' % (i, i) if i % 3 else 'flood%d;k!=%d' % (i, i) for i in range(n)]
+    good = [('ok%d;b=2;a=%d' % (i, i), 'ok%d;a=%d;b=2' % (i, i)) for i in range(5)]
+    rounds = [bad + [g[0] for g in good], bad[:10] + bad[n // 2:n // 2 + 10], list(reversed(bad)), bad[:10]]
+    for ri, names in enumerate(rounds):
+      clock[0] += [0, 61, 5, 120][ri]
+      for x in names:
+        cache = b.cache.MetricCache()
+        before = set(dict.keys(cache))
+        nsent = len(mgr.sent)
+        try:
+          proc.process(x, (clock[0], 1.0))
+          rp.process(x, (clock[0], 1.0))
+        except Exception as e:  # noqa
+          ctx.fail('C18:processor-raised:%s' % type(e).__name__, 'long-lived processors, round %d: %r raised %r' % (ri, x, e), case)
+          return
+        want = dict(good).get(x, x)
+        relayed = [m for m, _ in mgr.sent[nsent:]]
+        if want not in dict.keys(cache) or relayed != [want] or (set(dict.keys(cache)) - before) - set([want]):
+          ctx.fail('C18:rejected-name-altered' if x in bad else 'C18:pipeline-uses-other-name',
+                   'long-lived processors, round %d (%d rejected names seen so far): %r was stored under %r and relayed as %r, '
+                   'expected %r' % (ri, n, x, sorted(set(dict.keys(cache)) - before) or 'an existing key', relayed, want), case, 'as-received')
+          return
+      # drain so that "stored under" can be observed afresh in the next round
+      b.cache.MetricCache().clear()
+      b.cache.MetricCache().size = 0
+    ctx.note(case, nontrivial=True, classes=['long-lived processors, %d rejected names' % n], key=['long-lived', n])
+  finally:
+    b.cache.time = saved
+
+
 def run(ctx):
+  if (ctx.shard or 0) == 0:
+    for n in (40, 1203):
+      execute(ctx, {'kind': 'long-lived', 'n': n})
   run_given(ctx, valid_series(), execute, ctx.scale(3000, 12000), salt=1)
   run_given(ctx, invalid_series(), execute, ctx.scale(600, 2500), salt=2)
   run_given(ctx, invalid_openmetrics(), execute, ctx.scale(500, 2500), salt=3)
